@@ -14,6 +14,8 @@ R3 adjacent codes: in training the value set stays inside the declared code
 R4 unbiased orientation of stochastic_round / stochastic_round_po2.
 R6 inference arm vs deterministic configuration under IEEE arithmetic on
    constant tensors (all-zero channel included).
+R8 stochastic_binary with a data-dependent scale: training output / scale of
+   the inference arm is a +-1 code, the training scale has no random draw.
 R5 every configuration that requests stochastic rounding has a random draw
    in its training arm (a dropped option makes the rounding deterministic
    and therefore biased between two codes).
@@ -394,6 +396,37 @@ def run(rep, repo, tier):
                         if "use_stochastic_rounding" in c09.ALTS[c][1]],
       rule="R7", only=("use_stochastic_rounding",))
   rep.require_instances("R7", 12)
+  # R8: the codes of stochastic_binary with a data-dependent scale are the
+  # codes of its deterministic counterpart: the training output divided by
+  # the scale of the inference arm (binary's least-squares scale) is a pure
+  # +-1 code - the scale itself does not depend on the draw
+  for alpha in ("auto", "auto_po2"):
+    for shp in ((4, 6), (4, 3, 3, 5)):
+      kw = dict(alpha=alpha)
+      cfg = "stochastic_binary(alpha=%r)@shape%s" % (alpha, shp)
+      unit = "%s::stochastic_binary.__call__" % mod.relpath
+      try:
+        b = quant.build(repo, "stochastic_binary", kw, x_shape=shp)
+      except ConfigRejected:
+        continue
+      sc = b.obj.attrs.get("scale")
+      if not isinstance(sc, Tensor):
+        rep.fail("R8", unit, "no-scale-recorded", "%s: self.scale is %r" %
+                 (cfg, sc), loc=b.pe.loc_of(b.term), instance=cfg)
+        continue
+      s_inf = Fwd("infer")(sc.term)
+      q = Fwd("train")(b.term) * s_inf.inverse()
+      got = value_set(q)
+      rands = [a for a in Fwd("train")(sc.term).atoms()
+               if a[0] == "app" and a[1] == "rand"]
+      rep.check(got.subset_of(VS.fin([-1, 1])) and not rands, "R8", unit,
+                "training-codes-not-the-deterministic-codes",
+                "%s: training output / scale of the deterministic "
+                "counterpart has the value set %r (expected {-1, 1}); "
+                "random draws inside the training scale: %d" %
+                (cfg, got, len(rands)), loc=b.pe.loc_of(b.term),
+                instance=cfg)
+  rep.require_instances("R8", 4)
   rep.extra["configuration_points"] = n
   rep.require_instances("R1", 1000)
   rep.require_instances("R2", 300)
